@@ -397,9 +397,14 @@ def inject_defect(rng, d, kind=None):
 # ----------------------------------------------------------------------------- program text / ISA tables
 WS = [" ", "\t", "  ", " \t ", "\x0b", "\x0c", "\x1c", "\x1f", "\x85", "\xa0"]
 IDCH = "ABCDEFGHIJKLMNOPQRSTUVWXYZabcdefghijklmnopqrstuvwxyz0123456789_"
+# tokens (no blank, no comma) that are special to string.Template, str.format, %-formatting or look like the
+# placeholders of the project's own message templates: usable as mnemonics and as register names
+SPECIAL_TOKENS = ["MOV$", "$t", "J${x}", "st$$", "a%s", "x{0}", "${elem}", "$line", "$instr", "{instr}", "q'r", "#1"]
 
 
 def ident(rng, pool=None, maxlen=4):
+    if rng.random() < 0.04:
+        return rng.choice(SPECIAL_TOKENS)
     if pool and rng.random() < 0.8:
         return rng.choice(pool)
     return "".join(rng.choice(IDCH) for _ in range(rng.randint(1, maxlen)))
@@ -448,6 +453,8 @@ def render_program(rng, instrs, corrupt=None):
 def rand_isa(rng, caps, n=None, defect=0.15):
     n = big(rng, 8, 60, 0.03) if n is None else n
     mn = ["ADD", "SUB", "LW", "SW", "MUL", "DIV", "BEQ", "NOP", "and", "Or"]
+    if rng.random() < 0.15:
+        mn[:3] = rng.sample(SPECIAL_TOKENS, 3)
     rng.shuffle(mn)
     mn += [f"OP{i}" for i in range(max(0, n - len(mn)))]
     spec = []
